@@ -278,6 +278,9 @@ func Parse(block []rune, pos int) (pt ParsedTokens, syntaxHighlighted string) {
 				ansiReset(block[i])
 				pt.QuoteBrace--
 			case pt.QuoteBrace == 0:
+				// an unbalanced `)`: the block parser keeps it as part of the word
+				// (`out) | x` runs the command `out)`). Never preview such a line.
+				pt.Unsafe = true
 				ansiColour(hlError, block[i])
 				pt.QuoteBrace--
 			case pt.ExpectParam:
